@@ -4,26 +4,30 @@ From Coq Require Import ZArith List.
 Import ListNotations.
 Open Scope Z_scope.
 
-(* fragment g_dot from sparse/numba_backend/_common.py:dot selector=None srchash=6065eadeef552474 *)
+(* fragment g_dot from sparse/numba_backend/_common.py:dot selector=None srchash=314a5032a7372727 *)
 Definition g_dot (a : pyv) (b : pyv) (a_ndim : pyv) (b_ndim : pyv) (a_len : pyv) (b_len : pyv) : res pyv :=
 _ <- Ok VNone ;;
 t1_ <- Ok (VBool false) ;;
 if cond t1_ then (
 Raise TypeError
 ) else (
-t2_ <- (t4_ <- (t5_ <- Ok a_ndim ;; py_eq t5_ (VInt (1))) ;; if cond t4_ then (t3_ <- Ok b_ndim ;; py_eq t3_ (VInt (1))) else Ok t4_) ;;
+t2_ <- (t4_ <- (t5_ <- Ok a_ndim ;; py_eq t5_ (VInt (0))) ;; if cond t4_ then Ok t4_ else (t3_ <- Ok b_ndim ;; py_eq t3_ (VInt (0)))) ;;
 if cond t2_ then (
-t6_ <- py_ne a_len b_len ;;
+Ok (VTuple [VInt 3])
+) else (
+t6_ <- (t8_ <- (t9_ <- Ok a_ndim ;; py_eq t9_ (VInt (1))) ;; if cond t8_ then (t7_ <- Ok b_ndim ;; py_eq t7_ (VInt (1))) else Ok t8_) ;;
 if cond t6_ then (
+t10_ <- py_ne a_len b_len ;;
+if cond t10_ then (
 Raise ValueError
 ) else (
-a <- (t7_ <- Ok (VBool true) ;; if cond t7_ then (
+a <- (t11_ <- Ok (VBool true) ;; if cond t11_ then (
 a <- Ok a ;;
 Ok (a)
 ) else (
 Ok (a)
 )) ;;
-b <- (t8_ <- Ok (VBool true) ;; if cond t8_ then (
+b <- (t12_ <- Ok (VBool true) ;; if cond t12_ then (
 b <- Ok b ;;
 Ok (b)
 ) else (
@@ -34,13 +38,14 @@ Ok (VTuple [VInt 0; a; b])
 ) else (
 a_axis <- Ok (VInt (-1)) ;;
 b_axis <- Ok (VInt (-2)) ;;
-b_axis <- (t9_ <- (t10_ <- Ok b_ndim ;; py_eq t10_ (VInt (1))) ;; if cond t9_ then (
+b_axis <- (t13_ <- (t14_ <- Ok b_ndim ;; py_eq t14_ (VInt (1))) ;; if cond t13_ then (
 b_axis <- Ok (VInt (-1)) ;;
 Ok (b_axis)
 ) else (
 Ok (b_axis)
 )) ;;
 Ok (VTuple [VInt 1; a_axis; b_axis])
+)
 )
 ).
 
@@ -66,13 +71,15 @@ pos <- (t7_ <- (py_ne nda (VInt (0))) ;; py_int t7_) ;;
 Raise ValueError
 ).
 
-(* fragment g_vecdot from sparse/numba_backend/_common.py:vecdot selector=None srchash=8c6c5375ea90de5f *)
+(* fragment g_vecdot from sparse/numba_backend/_common.py:vecdot selector=None srchash=f38d5430727f729a *)
 Definition g_vecdot (x1 : pyv) (x2 : pyv) (axis : pyv) (x1_ndim : pyv) (x2_ndim : pyv) (x1_ext : pyv) (x2_ext : pyv) : res pyv :=
 ndmin <- py_min2 x1_ndim x2_ndim ;;
 t1_ <- (t2_ <- (t5_ <- (t3_ <- (py_neg ndmin) ;; t4_ <- py_le t3_ axis ;; if cond t4_ then py_lt axis ndmin else Ok t4_) ;; py_not t5_) ;; if cond t2_ then Ok t2_ else py_ne x1_ext x2_ext) ;;
 if cond t1_ then (
 Raise ValueError
 ) else (
+x1 <- Ok x1 ;;
+x2 <- Ok x2 ;;
 x1 <- (t6_ <- Ok (VBool false) ;; if cond t6_ then (
 x1 <- Ok x1 ;;
 Ok (x1)
